@@ -268,6 +268,76 @@ def modi_precondition(rep):
                       "off by a multiple of 2^%d mod b; quotients still come from bintDivide, so a = q*b + r fails" % (bits, word, word))
 
 
+def qhat_carry(rep):
+    """Knuth's step D3 corrects the estimated quotient digit with the test v2*qhat > rhat*b + u[j+2], which is meaningful only
+    while the partial remainder rhat is a single digit.  iintDivide adds v1 to rhat with the carry step PlusStep(k, rhat, rhat,
+    v1, 0): when it carries (k set) the test must not be made -- rhat has then lost its top bit and the comparison can succeed
+    wrongly, leaving a quotient digit that is too small, for which the algorithm has no repair.  On the CFG: from every carry
+    step into rhat no path reaches a comparison that reads rhat without first reading that step's carry."""
+    f = common.extract("bigint.c", "runtime", trees=["iintDivide"], cfg=["iintDivide"])
+    fn = f.func("iintDivide")
+    cfg = common.CFG(fn)
+    steps = []          # (node of `X = r_`, X, K, node of `K = k_`)
+    for blk in walk(fn["body"]):
+        if blk["k"] != "CompoundStmt":
+            continue
+        names = set(d["n"] for st in blk["c"] if st is not None and st["k"] == "DeclStmt" for d in st.get("decls", []))
+        if not {"r_", "k_"} <= names:
+            continue
+        x = kk = None
+        for st in blk["c"]:
+            if st is not None and st["k"] == "BinaryOperator" and st["op"] == "=":
+                l, r = strip(st["c"][0]), strip(st["c"][1])
+                if l is not None and l["k"] == "DeclRefExpr" and r is not None and r["k"] == "DeclRefExpr":
+                    if r["n"] == "r_":
+                        x = (st, l["n"])
+                    elif r["n"] == "k_":
+                        kk = (st, l["n"])
+        if x and kk:
+            steps.append((x[0], x[1], kk[1], kk[0]))
+    into_rhat = [s_ for s_ in steps if s_[1] == "rhat"]
+    if len(into_rhat) < 2:
+        raise AnalysisBroken("iintDivide: step D3 no longer adds to the partial remainder with the single-digit carry step (found %d "
+                             "PlusStep(.., rhat, ..)): whether the quotient-digit estimate is still exact has to be re-derived by hand"
+                             % len(into_rhat))
+    # comparisons that read rhat: the `h2_ = (rhat)` initialiser of TestGTDouble
+    def cmp_read(e):
+        return e["k"] == "DeclRefExpr" and e["n"] == "rhat" and e.get("id") in cmp_ids
+    cmp_ids = set()
+    for blk in walk(fn["body"]):
+        if blk["k"] == "DeclStmt":
+            for d in blk.get("decls", []):
+                if d["n"] in ("h2_", "h1_") and d.get("init") is not None:
+                    for y in walk(d["init"]):
+                        if y["k"] == "DeclRefExpr" and y["n"] == "rhat":
+                            cmp_ids.add(y["id"])
+    if not cmp_ids:
+        raise AnalysisBroken("iintDivide: the comparison that reads rhat (TestGTDouble) was not found")
+    lhs_ids = set()
+    for x in walk(fn["body"]):
+        if x["k"] == "BinaryOperator" and x["op"] == "=":
+            l = strip(x["c"][0])
+            if l is not None and l["k"] == "DeclRefExpr":
+                lhs_ids.add(l["id"])
+    for n, (xs, xn, kn, ks) in enumerate(into_rhat, 1):
+        ev = cfg.events(lambda e, ks=ks: e.get("id") == ks["id"])
+        if not ev:
+            raise AnalysisBroken("iintDivide: carry store not in the CFG")
+        b, i, _ = ev[0]
+        pth = cfg.path_avoiding(b, cmp_read, lambda e, kn=kn: e["k"] == "DeclRefExpr" and e["n"] == kn and e.get("id") not in lhs_ids,
+                                src_idx=i)
+        key = "qhat-test-only-without-carry@%d" % n
+        where = "bigint.c:%d (iintDivide)" % xs["l"]
+        if pth is None:
+            rep.ok("N6", key, sample={"carry": kn})
+        else:
+            rep.violation("N6", key, where,
+                          "after this carry step into rhat a path reaches the comparison v2*qhat > (rhat, u[j+2]) without looking at "
+                          "the carry `%s`: when the sum carried, rhat is no longer the partial remainder and the test can lower qhat "
+                          "wrongly; quotient and remainder are then both wrong (a != q*b + r), for operands whose leading remainder "
+                          "digit equals the divisor's leading digit" % kn, detail={"cfg_path": pth[:10]})
+
+
 def run(tier, only=None):
     rep = common.Report("C11", tier, EXPLANATION)
     c04_builtins.carry_steps(rep, rule="N1")
@@ -285,6 +355,7 @@ def run(tier, only=None):
     sign_cases(rep)
     mod_sign(rep)
     modi_precondition(rep)
+    qhat_carry(rep)
     rep.floor("C11 structural obligations", rep.obligations, 15)
     rep.assumptions += ["a call of bintPlus/bintMinus/bintTimes/bintDivide on non-negative operands returns its mathematical result "
                         "(induction on the number of negative operands; the digit-level routines are not analysed)",
